@@ -1070,6 +1070,16 @@ class BaseDAGExecution(Generic[P, RVDAG]):
                 to_cache_results = results
             pickle.dump(to_cache_results, f, protocol=pickle.HIGHEST_PROTOCOL, fix_imports=False)
 
+    def _ids_to_nodes(self, ids: Optional[Sequence[Alias]]) -> Optional[List[Alias]]:
+        """The selections were resolved to ExecNode ids in __post_init__.
+
+        An id handed back to the DAG as a plain string would be resolved as an Alias again (a tag spelled like that id has
+        priority); the ExecNodes themselves are unambiguous.
+        """
+        if ids is None:
+            return None
+        return [self.dag.get_node_by_id(id_) for id_ in ids]  # type: ignore[arg-type]
+
     def _pre_call(self) -> None:
         if self.executed:
             raise TawaziUsageError("DAGExecution object has already been executed.")
@@ -1106,7 +1116,10 @@ class DAGExecution(BaseDAGExecution[P, RVDAG]):
         # TODO: handle the case where cache_deps_of is provided instead of target_nodes and exclude_nodes
         #  in which case the deps_of might have a setup node themselves which should not run.
         #  This is an edge case though that is not important to handle at the current moment.
-        self.dag.setup(target_nodes=self.target_nodes, exclude_nodes=self.exclude_nodes)
+        self.dag.setup(
+            target_nodes=self._ids_to_nodes(self.target_nodes),
+            exclude_nodes=self._ids_to_nodes(self.exclude_nodes),
+        )
 
     def __call__(self, *args: P.args, **kwargs: P.kwargs) -> RVDAG:
         """Call the DAG.
@@ -1143,7 +1156,10 @@ class AsyncDAGExecution(BaseDAGExecution[P, RVDAG]):
         # TODO: handle the case where cache_deps_of is provided instead of target_nodes and exclude_nodes
         #  in which case the deps_of might have a setup node themselves which should not run.
         #  This is an edge case though that is not important to handle at the current moment.
-        await self.dag.setup(target_nodes=self.target_nodes, exclude_nodes=self.exclude_nodes)
+        await self.dag.setup(
+            target_nodes=self._ids_to_nodes(self.target_nodes),
+            exclude_nodes=self._ids_to_nodes(self.exclude_nodes),
+        )
 
     async def __call__(self, *args: P.args, **kwargs: P.kwargs) -> RVDAG:
         """Call the DAG.
